@@ -90,6 +90,82 @@ def genClasses (fs : FileSets) (rp : Str → Str) (n : Str) : Option (Bool × Bo
   | some a, some b, some c, some d => some (a, b, c, d)
   | _, _, _, _ => none
 
+/-! ### Handler.Check{Read,Write,Stat}, onDgsFileDetect, CheckSyscall, SyscallCounter.Check (regenerated) -/
+
+def actGlob (n : String) : Option Val :=
+  match n with
+  | "ptracer.TraceAllow" => some (.str "allow")
+  | "ptracer.TraceBan" => some (.str "ban")
+  | "ptracer.TraceKill" => some (.str "kill")
+  | _ => none
+
+def actOfVal : Val → Option Action
+  | .str "allow" => some .allow
+  | .str "ban" => some .ban
+  | .str "kill" => some .kill
+  | _ => none
+
+/-- the handler's calls into its FileSets run the regenerated Is*File; `h.onDgsFileDetect` runs the
+regenerated onDgsFileDetect -/
+def extH (rp : Str → Str) (fs : FileSets) : Nat → String → List Val → Env → Unit → Except String (Val × Unit)
+  | d, name, args, _, w =>
+    let cls (f : Func) : Except String (Val × Unit) :=
+      match runBody ({ ext := ext4 rp, glob := fun _ => none } : Cfg Unit) [] f.body [("name", args.headD .nil), ("s", setsVal fs)] () 9000 with
+      | .ok (some [v], _, _) => .ok (v, w)
+      | _ => .error f.name
+    match name with
+    | "h.FileSet.IsReadableFile" => cls Gen.C18.isReadableFile
+    | "h.FileSet.IsWritableFile" => cls Gen.C18.isWritableFile
+    | "h.FileSet.IsStatableFile" => cls Gen.C18.isStatableFile
+    | "h.FileSet.IsSoftBanFile" => cls Gen.C18.isSoftBanFile
+    | "h.onDgsFileDetect" =>
+      (match d with
+       | 0 => .error "depth"
+       | d + 1 =>
+         match runBody ({ ext := extH rp fs d, glob := actGlob } : Cfg Unit) [] Gen.C18.onDgsFileDetect.body [("name", args.headD .nil), ("h", .strct [])] () 200 with
+         | .ok (some [v], _, _) => .ok (v, w)
+         | _ => .error "onDgsFileDetect")
+    | _ => .error s!"unknown call {name}"
+
+/-- verdict of the regenerated Handler.Check<class>(n) -/
+def genCheck (fs : FileSets) (rp : Str → Str) (c : Cls) (n : Str) : Option Action :=
+  let f := match c with | .write => Gen.C18.checkWrite | .read => Gen.C18.checkRead | .stat => Gen.C18.checkStat
+  match runBody ({ ext := extH rp fs 2, glob := actGlob } : Cfg Unit) [] f.body [("fn", .str (String.ofList n)), ("h", .strct [])] () 200 with
+  | .ok (some [v], _, _) => actOfVal v
+  | _ => none
+
+def counterVal (c : Counter) : Val := .strct (c.map (fun p => (String.ofList p.1, Val.int p.2)))
+
+def counterOfVal : Val → Option Counter
+  | .strct fs => fs.mapM (fun p => match p.2 with | .int i => some (p.1.toList, i) | _ => none)
+  | _ => none
+
+/-- the regenerated SyscallCounter.Check on a map value: (updated map, inside, allow).  The map is a
+reference in Go: the write `s[name] = n - 1` is read back from the callee's environment. -/
+def genCounterCheck (c : Val) (name : Val) : Except String (Val × Val × Val) :=
+  match runBody ({ ext := fun n _ _ _ => .error s!"unknown call {n}", glob := fun _ => none } : Cfg Unit) []
+      Gen.C18.counterCheck.body [("name", name), ("s", c)] () 200 with
+  | .ok (some [a, b], env, _) => (match env.get? "s" with | some s => .ok (s, a, b) | none => .error "s")
+  | _ => .error "Check"
+
+/-- the regenerated Handler.CheckSyscall with the counter map as the world -/
+def genCheckSyscall (c : Counter) (name : Str) : Option (Counter × Action) :=
+  let cfg : Cfg Val := { ext := fun n args _ w => match n, args with
+      | "h.SyscallCounter.Check", [nm] => (match genCounterCheck w nm with
+          | .ok (s, a, b) => .ok (.tup [a, b], s)
+          | .error e => .error e)
+      | _, _ => .error s!"unknown call {n}", glob := actGlob }
+  match runBody cfg [] Gen.C18.checkSyscall.body [("syscallName", .str (String.ofList name)), ("h", .strct [])] (counterVal c) 200 with
+  | .ok (some [v], _, w) => (match counterOfVal w, actOfVal v with | some c', some a => some (c', a) | _, _ => none)
+  | _ => none
+
+/-- the regenerated SyscallCounter.Add -/
+def genCounterAdd (c : Counter) (name : Str) (count : Int) : Option Counter :=
+  match runBody ({ ext := fun n _ _ _ => .error s!"unknown call {n}", glob := fun _ => none } : Cfg Unit) []
+      Gen.C18.counterAdd.body [("count", .int count), ("name", .str (String.ofList name)), ("s", counterVal c)] () 100 with
+  | .ok (_, env, _) => (env.get? "s").bind counterOfVal
+  | _ => none
+
 /-- all strings over an alphabet up to a length -/
 def words (alpha : List Char) : Nat → List Str
   | 0 => [[]]
